@@ -16,14 +16,17 @@ import (
 	"math/rand"
 	"os"
 	"strconv"
+	"strings"
 
 	"github.com/fogfish/golem/trait/pair"
 	"github.com/fogfish/golem/trait/seq"
 )
 
 type Pred struct {
-	K string `json:"k"` // lt | ne | par | true | false
-	C int    `json:"c,omitempty"`
+	K  string `json:"k"` // lt | ne | par | true | false | mod (x mod c == r) | in (x is one of xs)
+	C  int    `json:"c,omitempty"`
+	R  int    `json:"r,omitempty"`
+	Xs []int  `json:"xs,omitempty"`
 }
 
 type PPred struct {
@@ -44,8 +47,9 @@ type PMap struct {
 	M *Mapc  `json:"m,omitempty"`
 }
 
-// pair sort: pfrom parg ptakew pdropw pfilter pmap pplus pjoin pjoine pfromseq pfromseqe
-// seq sort:  sfrom sslice sargk sargv sshift stoseq stoseqe
+// pair sort: pfrom parg ptakew pdropw pfilter pmap pplus pjoin pjoine pfromseq pfromseqe pwhen
+// seq sort:  sfrom sslice sargk sargv sshift stoseq stoseqe swhen
+// pwhen / swhen: the conditional body of a join function - nil unless the guard p holds of the argument (a, b)
 type Node struct {
 	O  string `json:"o"`
 	Kk int    `json:"kk,omitempty"`
@@ -96,6 +100,20 @@ func pred(p *Pred) func(int) bool {
 		return func(int) bool { return true }
 	case "false":
 		return func(int) bool { return false }
+	case "mod":
+		if p.C <= 0 {
+			panic("pred code mod: modulus must be positive")
+		}
+		return func(x int) bool { return emod(x, p.C) == p.R }
+	case "in":
+		return func(x int) bool {
+			for _, y := range p.Xs {
+				if x == y {
+					return true
+				}
+			}
+			return false
+		}
 	}
 	panic("pred code " + p.K)
 }
@@ -277,6 +295,11 @@ func buildP(t *Node, e env) pair.Seq[int, int] {
 		return pair.FromSeq(buildS(t.S, e), func(x int) pair.Seq[int, int] { work++; return f(x) })
 	case "pfromseqe":
 		return pair.FromSeq(buildS(t.S, e), func(x int) pair.Seq[int, int] { return buildP(t.B, env{1000 + x, x}) })
+	case "pwhen":
+		if !ppred(t.P)(e.a, e.b) {
+			return nil
+		}
+		return buildP(t.S, e)
 	}
 	panic("pair op " + t.O)
 }
@@ -303,6 +326,11 @@ func buildS(t *Node, e env) seq.Seq[int] {
 		return pair.ToSeq(buildP(t.S, e), func(k, v int) seq.Seq[int] { work++; return f(k, v) })
 	case "stoseqe":
 		return pair.ToSeq(buildP(t.S, e), func(k, v int) seq.Seq[int] { return buildS(t.B, env{k, v}) })
+	case "swhen":
+		if !ppred(t.P)(e.a, e.b) {
+			return nil
+		}
+		return buildS(t.S, e)
 	}
 	panic("seq op " + t.O)
 }
@@ -489,6 +517,117 @@ func sbodies() []*Node {
 		{O: "stoseq", J: "kv", S: &Node{O: "pfilter", P: val(&Pred{K: "par", C: 1}), S: &Node{O: "parg"}}}}
 }
 
+// ------------------------------------------------------------------ join functions answering nil for SOME elements
+//
+// Join / FromSeq / ToSeq whose function is  if !guard(a, b) { return nil }; return <stopper> : the body is an
+// expression that STOPS EARLY - TakeWhile / DropWhile / Filter with a non-monotone predicate over a sequence
+// where the predicate fails in the middle and holds again later - and its neighbours (before, after, several in
+// a row, at the end) are nil.
+
+func md(m, r int) *Pred  { return &Pred{K: "mod", C: m, R: r} }
+func in(xs ...int) *Pred { return &Pred{K: "in", Xs: xs} }
+
+// which elements (1001,1) .. (1004,4) of the outer sequence get a body; the others get nil
+var guards = []*PPred{
+	val(&Pred{K: "ne", C: 2}),                              // nil between two bodies
+	val(&Pred{K: "ne", C: 1}),                              // nil first
+	val(&Pred{K: "lt", C: 3}),                              // nil for the last elements (several in a row, at the end)
+	key(in(1001, 1004)),                                    // several nil in a row between two bodies
+	val(in(3)),                                             // nil before (several in a row) and after
+	val(in(4)),                                             // only the last element has a body
+	val(&Pred{K: "par", C: 1}), key(&Pred{K: "par", C: 0}), // alternating
+	val(md(3, 1)),
+	{K: "both", P: &Pred{K: "lt", C: 1004}, Q: &Pred{K: "ne", C: 2}},
+	val(&Pred{K: "false"}), key(&Pred{K: "true"}),
+}
+
+// non-monotone predicates on (key, value)
+var holes = []*PPred{
+	val(&Pred{K: "par", C: 0}), key(&Pred{K: "par", C: 1}), val(md(3, 1)), key(md(3, 0)),
+	val(in(1, 2, 5, 6, 9)), {K: "both", P: &Pred{K: "ne", C: 1004}, Q: md(3, 1)},
+}
+
+func pun(o string, p *PPred, s *Node) *Node { return &Node{O: o, P: p, S: s} }
+func pplus(l, r *Node) *Node                { return &Node{O: "pplus", L: l, R: r} }
+func pwhen(p *PPred, s *Node) *Node         { return &Node{O: "pwhen", P: p, S: s} }
+func swhen(p *PPred, s *Node) *Node         { return &Node{O: "swhen", P: p, S: s} }
+func pjoine(b, s *Node) *Node               { return &Node{O: "pjoine", B: b, S: s} }
+func pfromseqe(b, s *Node) *Node            { return &Node{O: "pfromseqe", B: b, S: s} }
+func stoseqe(b, s *Node) *Node              { return &Node{O: "stoseqe", B: b, S: s} }
+
+func pinner() []*Node {
+	parg := &Node{O: "parg"}
+	return []*Node{
+		fsq("pair", ssh(0, 2, 1, 4)), fsq("pair", ssh(0, 1, 2, 3)), fsq("pair", ssl(1, 3, 2, 5)),
+		pplus(parg, pplus(&Node{O: "pfrom", Kk: 1002, V: 2}, pplus(&Node{O: "pfrom", Kk: 1007, V: 7}, parg))),
+		fsq("two", ssh(0, 1, 2, 3)),
+	}
+}
+
+// the plain early-stopping bodies
+func pstoppers0(srcs []*Node) []*Node {
+	out := []*Node{}
+	for _, src := range srcs {
+		for _, o := range []string{"ptakew", "pdropw", "pfilter"} {
+			for _, p := range holes {
+				out = append(out, pun(o, p, src))
+			}
+		}
+	}
+	return out
+}
+
+func pstoppers() []*Node {
+	out := pstoppers0(pinner())
+	parg := &Node{O: "parg"}
+	for _, src := range pinner()[:2] {
+		for _, p := range holes[:3] {
+			base := pun("ptakew", p, src)
+			out = append(out,
+				pplus(base, parg), pplus(parg, base), pplus(base, pun("pfilter", holes[3], fsq("pair", ssh(1, 3, 6)))),
+				&Node{O: "pmap", M: &PMap{K: "diff"}, S: base},
+				pun("ptakew", val(&Pred{K: "lt", C: 6}), base), pun("pfilter", val(&Pred{K: "ne", C: 3}), base),
+				pun("pdropw", holes[1], pun("pfilter", p, src)),
+				&Node{O: "pjoin", J: "repl", S: base},
+				pjoine(pwhen(holes[1], fsq("pair", ssh(0, 1))), base),
+				pfromseqe(pwhen(val(&Pred{K: "ne", C: 3}), pun("ptakew", p, fsq("pair", ssh(0, 2, 1)))), ssh(0, 1, 2)))
+		}
+	}
+	return out
+}
+
+// plain-sequence bodies for ToSeq: slices, and ToSeq of an early-stopping pair expression
+func sstoppers() []*Node {
+	out := []*Node{ssh(0, 2, 1, 4), ssl(7, 8), {O: "sargk"}}
+	for _, b := range pstoppers0(pinner()[:2]) {
+		out = append(out, &Node{O: "stoseq", J: "kv", S: b}, &Node{O: "stoseq", J: "range", S: b},
+			stoseqe(&Node{O: "sargv"}, b))
+	}
+	return out
+}
+
+func pouters() []*Node {
+	return []*Node{fsq("pair", ssl(1, 2, 3)), fsq("pair", ssl(1, 2, 3, 4)), fsq("pair", ssl(2, 1, 4, 3))}
+}
+
+func souters() []*Node { return []*Node{ssl(1, 2, 3), ssl(1, 2, 3, 4), ssl(2, 1, 4, 3)} }
+
+// visit every (outer, guard, body) of the alphabet for the three kinds of join
+func nilJoins(visit func(kind int, t *Node)) {
+	ps, ss := pstoppers(), sstoppers()
+	for i := range pouters() {
+		for _, g := range guards {
+			for _, b := range ps {
+				visit(0, pjoine(pwhen(g, b), pouters()[i]))
+				visit(1, pfromseqe(pwhen(g, b), souters()[i]))
+			}
+			for _, b := range ss {
+				visit(2, stoseqe(swhen(g, b), pouters()[i]))
+			}
+		}
+	}
+}
+
 func clone(t *Node) *Node {
 	if t == nil {
 		return nil
@@ -561,7 +700,40 @@ func (g *gen) slice() []int {
 	return xs
 }
 
+// a predicate that may fail in the middle of a sequence and hold again later
+func (g *gen) hole(off int) *Pred {
+	switch g.rng.Intn(6) {
+	case 0:
+		return &Pred{K: "par", C: g.rng.Intn(2)}
+	case 1, 2:
+		m := 2 + g.rng.Intn(3)
+		return md(m, g.rng.Intn(m))
+	case 3, 4:
+		xs := []int{}
+		for v := -3; v < 14; v++ {
+			if g.rng.Intn(2) == 0 {
+				xs = append(xs, off+v)
+			}
+		}
+		return in(xs...)
+	}
+	return &Pred{K: "ne", C: off + g.val()}
+}
+
+func (g *gen) phole() *PPred {
+	switch g.rng.Intn(5) {
+	case 0, 1:
+		return key(g.hole(1000))
+	case 2, 3:
+		return val(g.hole(0))
+	}
+	return &PPred{K: "both", P: g.pred(1000), Q: g.hole(0)}
+}
+
 func (g *gen) pred(off int) *Pred {
+	if g.rng.Intn(4) == 0 {
+		return g.hole(off)
+	}
 	switch g.rng.Intn(8) {
 	case 0, 1:
 		return &Pred{K: "lt", C: off + g.val()}
@@ -619,7 +791,11 @@ func (g *gen) stree(d int, inJoin bool) *Node {
 		if bd > d-1 {
 			bd = d - 1
 		}
-		return &Node{O: "stoseqe", B: g.stree(bd, true), S: g.ptree(d-1, inJoin)}
+		b := g.stree(bd, true)
+		if g.rng.Intn(2) == 0 {
+			b = swhen(g.ppred(), b)
+		}
+		return &Node{O: "stoseqe", B: b, S: g.ptree(d-1, inJoin)}
 	}
 	return &Node{O: "stoseq", J: tsjoins[g.rng.Intn(3)], S: g.ptree(d-1, inJoin)}
 }
@@ -654,7 +830,7 @@ func (g *gen) ptree(d int, inJoin bool) *Node {
 		if bd > d-1 {
 			bd = d - 1
 		}
-		return &Node{O: "pjoine", B: g.ptree(bd, true), S: g.ptree(d-1, inJoin)}
+		return &Node{O: "pjoine", B: g.body(bd), S: g.ptree(d-1, inJoin)}
 	case k < 19:
 		return &Node{O: "pfromseq", J: fsjoins[1+g.rng.Intn(2)], S: g.stree(d-1, inJoin)}
 	default:
@@ -662,8 +838,121 @@ func (g *gen) ptree(d int, inJoin bool) *Node {
 		if bd > d-1 {
 			bd = d - 1
 		}
-		return &Node{O: "pfromseqe", B: g.ptree(bd, true), S: g.stree(d-1, inJoin)}
+		return &Node{O: "pfromseqe", B: g.body(bd), S: g.stree(d-1, inJoin)}
 	}
+}
+
+// the body of a nested join function: every other one is conditional
+func (g *gen) body(d int) *Node {
+	b := g.ptree(d, true)
+	if g.rng.Intn(2) == 0 {
+		b = pwhen(g.ppred(), b)
+	}
+	return b
+}
+
+// a slice of n..n+2 values
+func (g *gen) sliceN(n int) []int {
+	xs := make([]int, n+g.rng.Intn(3))
+	for i := range xs {
+		xs[i] = g.val()
+	}
+	return xs
+}
+
+// a pair sequence of 3..5 elements (depending on the join argument two times out of three)
+func (g *gen) psrc() *Node {
+	switch g.rng.Intn(6) {
+	case 0, 1:
+		return fsq("pair", ssl(g.sliceN(3)...))
+	case 2, 3, 4:
+		return fsq("pair", ssh(g.sliceN(3)...))
+	}
+	t := &Node{O: "parg"}
+	for i := 0; i < 3; i++ {
+		var l *Node
+		if g.rng.Intn(3) == 0 {
+			l = &Node{O: "parg"}
+		} else {
+			v := g.val()
+			l = &Node{O: "pfrom", Kk: 1000 + v, V: v}
+		}
+		t = pplus(l, t)
+	}
+	return t
+}
+
+var pstopOps = []string{"ptakew", "ptakew", "pdropw", "pfilter"}
+
+// an expression over the join argument that stops early, composed d times with further operators
+func (g *gen) pstopper(d int) *Node {
+	if d == 0 {
+		return pun(pstopOps[g.rng.Intn(4)], g.phole(), g.psrc())
+	}
+	b := g.pstopper(d - 1)
+	switch g.rng.Intn(9) {
+	case 0:
+		return pplus(b, g.ptree(0, true))
+	case 1:
+		return pplus(g.ptree(0, true), b)
+	case 2:
+		return pplus(b, g.pstopper(0))
+	case 3:
+		return &Node{O: "pmap", M: g.pmap(), S: b}
+	case 4:
+		return pun(pstopOps[1+g.rng.Intn(3)], g.ppred(), b)
+	case 5:
+		return &Node{O: "pjoin", J: pjoins[1+g.rng.Intn(2)], S: b}
+	case 6:
+		return pjoine(pwhen(g.ppred(), g.pstopper(0)), b)
+	case 7:
+		return pfromseqe(pwhen(g.ppred(), g.pstopper(0)), g.sstopper(b))
+	}
+	return pwhen(g.ppred(), b)
+}
+
+// a plain sequence made of an early-stopping pair expression
+func (g *gen) sstopper(b *Node) *Node {
+	switch g.rng.Intn(3) {
+	case 0:
+		return &Node{O: "stoseq", J: tsjoins[1+g.rng.Intn(2)], S: b}
+	case 1:
+		return stoseqe(swhen(g.ppred(), g.stree(0, true)), b)
+	}
+	return stoseqe(g.stree(0, true), b)
+}
+
+// Join / FromSeq / ToSeq (outer, (a, b) -> guard(a, b) ? stopper : nil), bare or inside a small context
+func (g *gen) nilJoin() *Node {
+	var guard *PPred
+	if g.rng.Intn(2) == 0 {
+		guard = g.phole()
+	} else {
+		guard = g.ppred()
+	}
+	b := g.pstopper(g.rng.Intn(3))
+	var t *Node
+	switch g.rng.Intn(5) {
+	case 0, 1:
+		t = pjoine(pwhen(guard, b), fsq("pair", ssl(g.sliceN(2)...)))
+	case 2, 3:
+		t = pfromseqe(pwhen(guard, b), ssl(g.sliceN(2)...))
+	default:
+		return stoseqe(swhen(guard, g.sstopper(b)), fsq("pair", ssl(g.sliceN(2)...)))
+	}
+	switch g.rng.Intn(8) {
+	case 0:
+		return pplus(t, g.ptree(0, false))
+	case 1:
+		return pplus(g.ptree(0, false), t)
+	case 2:
+		return pun(pstopOps[1+g.rng.Intn(3)], g.ppred(), t)
+	case 3:
+		return pjoine(pwhen(g.ppred(), g.pstopper(0)), t)
+	case 4:
+		return g.sstopper(t)
+	}
+	return t
 }
 
 func (g *gen) mode(n int) Mode {
@@ -687,7 +976,7 @@ func main() {
 	emit := func(t *Node, m Mode, tag string) int {
 		c := run(clone(t), m)
 		c.Gen = tag
-		if tag == "rnd" && (c.Why == "no end" || len(c.Obs) > maxObs || work > maxWork) {
+		if strings.HasPrefix(tag, "rnd") && (c.Why == "no end" || len(c.Obs) > maxObs || work > maxWork) {
 			return -1
 		}
 		if err := enc.Encode(c); err != nil {
@@ -793,8 +1082,45 @@ func main() {
 		emit(t, drain, "exh2p")
 	}
 
-	// random trees mixing both sorts, depth 3..6 (thorough: ..7, longer slices)
+	// join functions answering nil for some elements and an early-stopping expression for the others:
+	// every (outer, guard, stopper) of the alphabet under Join (quick tier: FromSeq and ToSeq sampled),
+	// a sample of them inside a further operator
 	g := &gen{rng: rng, maxLen: 3}
+	nilJoins(func(kind int, t *Node) {
+		if !thorough && kind != 0 && rng.Intn(3) != 0 {
+			return
+		}
+		emit(t, drain, "nilj")
+		if thorough || rng.Intn(4) == 0 {
+			emit(t, cbs[rng.Intn(len(cbs))], "nilj")
+		}
+		if kind != 2 && (thorough || rng.Intn(8) == 0) {
+			us := punary(t)
+			emit(us[rng.Intn(len(us))], drain, "nilj2")
+			b := l0[rng.Intn(len(l0))]
+			if rng.Intn(2) == 0 {
+				emit(pplus(t, b), drain, "nilj2")
+			} else {
+				emit(pplus(b, t), drain, "nilj2")
+			}
+			ss := toseqs(t)
+			emit(ss[rng.Intn(len(ss))], drain, "nilj2")
+		}
+	})
+	nn := 4000
+	if thorough {
+		nn = 50000
+	}
+	limit = maxObs + 1
+	for i := 0; i < nn; i++ {
+		t := g.nilJoin()
+		k := emit(t, drain, "rndnil")
+		if k >= 0 && i%4 == 0 {
+			emit(t, g.mode(k), "rndnil")
+		}
+	}
+
+	// random trees mixing both sorts, depth 3..6 (thorough: ..7, longer slices)
 	n, maxd := 4000, 6
 	if thorough {
 		g.maxLen = 6
